@@ -3,6 +3,10 @@
 # to /tmp/seedkit/stubs), so that a scratch worktree builds and runs its tests (ROM suites included) without
 # X11/PortAudio. Scratch-only helper for validating fix: commits and seeded changes; no registered check uses it.
 set -e
+# up to date already (several verifications may run side by side: do not pull the files from under them)
+if [ -f /tmp/seedkit/go.alt.mod ] && [ -d /tmp/seedkit/stubs ] && [ /tmp/seedkit/go.alt.mod -nt /repo/go.mod ] && [ -z "$(find /verif/sa/stubs -newer /tmp/seedkit/go.alt.mod -print -quit)" ]; then
+  echo /tmp/seedkit/go.alt.mod; exit 0
+fi
 mkdir -p /tmp/seedkit
 rm -rf /tmp/seedkit/stubs
 cp -r /verif/sa/stubs /tmp/seedkit/stubs
